@@ -20,7 +20,7 @@ func Check() *engine.Check {
 			"errorhandler.HandleError on a recorder and the real gRPC interceptor around a handler returning the error, and compares both with the " +
 			"statement's table and with each other. (b) assembled decision, proxy and Envoy gRPC (bufconn) services built by their real constructors over " +
 			"real rules (real rule factory, repository, executor; scripted regular steps) whose authenticator/authorizer/contextualizer/finalizer fails " +
-			"with the enumerated error, with error pipeline none / real default / real redirect (302 templated, 301) / real www_authenticate " +
+			"with the enumerated error, with error pipeline none / real default / conditional handlers none of which applies / real redirect (302 templated, 301) / real www_authenticate " +
 			"(default, configured, rule-level realm), and the request no rule matches; x 3 override sets x verbose x Accept. (c) the challenge the real " +
 			"www_authenticate handler records (the services drop it, known finding): 3 prototype realms x 3 rule-level realms x every sequence of up to 2 " +
 			"other members of the family derived and executed before. (d) failures at the hop behind the proxy after a successful pipeline " +
